@@ -15,7 +15,7 @@ META = {
                  "symbolic: 0..(positional params + 2) positional arguments, each named parameter and 2 extra names passed by keyword "
                  "or not (presence booleans), unbounded symbolic int payloads; per-parameter unmarshallers replaced by tagging stubs "
                  "(routing), plus one end-to-end variant per row with the real unmarshallers for int/str/float/bool/list[int] annotations "
-                 "and an unannotated parameter; functions, methods, callable instances, classes on 6 rows; wrap metadata; 20 s per condition",
+                 "and an unannotated parameter, and one with subscripted container annotations given containers of unconverted members; functions, methods, callable instances, classes on 6 rows; wrap metadata; 20 s per condition",
         "thorough": "the wide variant on all 32 rows; defaults on every row; 90 s per condition",
     },
     "assumptions": ["inspect.Signature.bind is the oracle for acceptance and for the parameter each argument binds to"],
@@ -186,11 +186,21 @@ def make_route(row, wide, defaults, flavour, timeout, use_wrap=False):
 ANN = {"a": "int", "b": "str", "b2": "float", "args": "float", "c": "bool", "kw": "list[int]"}
 
 
-def make_e2e(row, timeout, unannotated=None):
-    """Real unmarshallers, pairwise-distinguishable annotations; `unannotated` names one parameter left bare."""
+ANN_CONTAINERS = {"a": "list[int]", "b": "dict[str, int]", "b2": "tuple[int, str]", "args": "list[int]", "c": "set[int]", "kw": "dict[str, list[int]]"}
+# arguments that already have the container class of some annotation, with members that still need converting
+CONTAINER_ARGS = [["1", 2], {"k": ["3"]}]
+
+
+def make_e2e(row, timeout, unannotated=None, containers=False):
+    """Real unmarshallers, pairwise-distinguishable annotations; `unannotated` names one parameter left bare;
+    `containers`: subscripted annotations and arguments that are already containers of unconverted members."""
     rname = "".join(k for k, on in zip(KINDS, row) if on) or "none"
-    ann = {k: v for k, v in ANN.items() if k != unannotated}
-    cname = f"e2e/{rname}" + (f"/bare_{unannotated}" if unannotated else "")
+    ann = {k: v for k, v in (ANN_CONTAINERS if containers else ANN).items() if k != unannotated}
+    cname = f"e2e/{rname}" + (f"/bare_{unannotated}" if unannotated else "") + ("/containers" if containers else "")
+
+    def argval(i):
+        return CONTAINER_ARGS[i % 2] if containers else i % 3
+
     npos_params = (1 if row[0] else 0) + (1 if row[1] else 0)
     maxpos = npos_params + 1
     kwnames = [n for n, on in (("a", row[0]), ("b", row[1]), ("c", row[3])) if on] + ["x"]
@@ -208,11 +218,11 @@ def make_e2e(row, timeout, unannotated=None):
         pos = []
         for i in range(maxpos):
             if i < n:
-                pos.append(p[f"p{i}"] % 3)
+                pos.append(argval(p[f"p{i}"]))
         kw = {}
         for nm in kwnames:
             if p[f"k_{nm}"]:
-                kw[nm] = p[f"v_{nm}"] % 3
+                kw[nm] = argval(p[f"v_{nm}"])
         if any(nm in kw for nm, prm in sig.parameters.items() if prm.kind is prm.POSITIONAL_ONLY):
             return None  # positional-only name reused as a **kw key: covered (and classified) by route/*
         try:
@@ -309,5 +319,6 @@ def conditions(tier, seed):
     for row, bare in [((True, True, True, True, True), "b"), ((False, True, False, True, False), "c"),
                       ((True, True, False, False, False), "a"), ((False, True, True, False, True), "args")]:
         out.append(make_e2e(row, to, unannotated=bare))
+        out.append(make_e2e(row, 3 * to, containers=True))
     out.append(make_wrap_meta(to))
     return out
